@@ -1,8 +1,22 @@
 import EmsModel.Core.SelProto
+import EmsModel.Gen.SelectSrc
 /-! Line-protocol driver for C05 (index and point selection): `select`, `extract`, `extractfill`,
 `isel`, `selvar` (see `Core/SelProto.lean`) and the array ops of `Core/ArrProto.lean`. -/
 open Ems Ems.Proto
+/-- [B8] `selectsrc <grids> <geometry> <indexDim> <idx> <var=arr>…`: the arguments of `select`, answered by running the programs
+generated from the source text (`Gen/SelectSrc.lean`, evaluators of `Core/SelectSrc.lean`) instead of the hand model -/
+def selectSrcStep? (ws : List String) : Option String :=
+  match ws with
+  | "selectsrc" :: gs :: geom :: idim :: idx :: vars =>
+    some (match Ems.ArrProto.parseGrids? gs, Ems.SelProto.parseNatives? idx, Ems.SelProto.parseVars? vars with
+    | some grids, some ix, some ds =>
+      match Ems.Gen.SelectSrc.selIdxSrc.run Ems.Gen.SelectSrc.selectorSrc Ems.Gen.SelectSrc.dropGeomSrc grids ds
+          (Ems.ArrProto.parseNames geom) [] ix (some idim) true with
+      | some out => Ems.SelProto.showDSet out
+      | none => "ERR"
+    | _, _, _ => "BAD")
+  | _ => none
 def step (line : String) : String :=
   let ws := words line
-  ((Ems.SelProto.step? ws).orElse fun _ => Ems.ArrProto.step? ws).getD "BAD"
+  (((selectSrcStep? ws).orElse fun _ => Ems.SelProto.step? ws).orElse fun _ => Ems.ArrProto.step? ws).getD "BAD"
 def main : IO Unit := loop step
